@@ -275,6 +275,16 @@ class Array(Base):
             if isinstance(exponent, self.__class__):
                 exponent = exponent._array * exponent.unit
             args = (args[0], exponent.to("dimensionless").magnitude) + args[2:]
+        if (
+            func.__name__ == "power"
+            and len(args) > 1
+            and isinstance(args[0], self.__class__)
+            and np.ndim(args[1]) > 0
+            and args[0].unit.dimensionless
+        ):
+            # Exponents that differ from element to element leave no unit to carry
+            # a scale factor: it is the pure number that is raised to them
+            args = (args[0].to("dimensionless"),) + args[1:]
         if func.__name__ not in APPLY_OP_TO_UNIT:
             # Operands with different units cannot be combined as raw numbers:
             # express them in the unit of this array (or fail if incompatible)
